@@ -36,9 +36,8 @@ func (node *tagForNode) Execute(ctx *ExecutionContext, writer TemplateWriter) (f
 		loopInfo.Parentloop = parentloop.(*tagForLoopInformation)
 	}
 
-	// Register loopInfo in public context
-	forCtx.Private["forloop"] = loopInfo
-
+	// The loop's own record is registered per iteration (below). The object to
+	// iterate over and the empty-branch still see the enclosing loop's forloop.
 	obj, err := node.objectEvaluator.Evaluate(forCtx)
 	if err != nil {
 		return err
